@@ -236,6 +236,11 @@ func propC15(t *rapid.T) {
 			lvl = fr.lvl
 		}
 	}
+	if depth >= 50 && rapid.IntRange(0, 3).Draw(t, "freshPools") == 0 {
+		// empty the pools: the stack capture starts from a freshly allocated (not yet grown) pooled object
+		runtime.GC()
+		runtime.GC()
+	}
 	want := c15Deep(depth, func() c15Site { return c15Wrap(skip, fr.f) })
 	all := logs.All()
 	desc := fmt.Sprintf("front %s level %d skip %d depth %d chain %v", fr.name, fr.lvl, skip, depth, chain)
